@@ -137,6 +137,8 @@ def observe_doc(ctx, text, info, tree, hists):
         hists.append(ec.run_real(text, [op, ("rm", p)], dict(info, law="set-rm")))
         if t2 != text:
             via = "call-argument" if wrapper in docs.CALL_WRAPPERS and p.startswith("@") else "other"
+            if via == "other" and not p.startswith("@") and closing_comments(text):
+                via = "closing-comments"
             if via == "other" and p.startswith("@") and leading_comment_before_target(text) and t2 == text.rstrip("\n"):
                 via = "comment-before-target"  # exactly the known effect: only the final newline is gone
             ctx.fail({"clause": "set-rm-restores", **key0, "scoped": p.startswith("@"), "via": via},
@@ -176,6 +178,15 @@ def observe_doc(ctx, text, info, tree, hists):
             if ab2 != ba2:
                 ctx.fail({"clause": "commute", **key0}, {"doc": text, "ops": [list(a), list(b)], "ab": ab2, "ba": ba2},
                          f"{a!r};{b!r} gives {ab2!r} but the other order gives {ba2!r}")
+
+
+def closing_comments(text: str) -> bool:
+    """does the target set end in own-line comments (between its last item and `}`)?"""
+    tgt = cstread.find_target(cstread.ts_parse(text))
+    if tgt is None:
+        return False
+    kids = [c for c in tgt.children]
+    return len(kids) >= 2 and kids[-1].type == "}" and kids[-2].type == "comment"
 
 
 def leading_comment_before_target(text: str) -> bool:
